@@ -1,3 +1,5 @@
 import BddVerif.Props.C07
+import BddVerif.Lemmas.C02HistorySubst
 #print axioms B.Props.C07.substitute_spec
 #print axioms B.Props.C07.substitute_safe_canonical
+#print axioms B.C02H.substitute_canonical
